@@ -10,3 +10,8 @@ import GoFlags.Props.C11
 #print axioms GoFlags.C11.map_splits_at_first_colon
 #print axioms GoFlags.C11.map_without_colon
 #print axioms GoFlags.C11.failed_conversion_keeps_slice
+#print axioms GoFlags.C11.digitVal_digitChar
+#print axioms GoFlags.C11.horner_append
+#print axioms GoFlags.C11.natToBase_spec
+#print axioms GoFlags.C11.parseUint_format
+#print axioms GoFlags.C11.parseInt_format
